@@ -81,7 +81,7 @@ def drivers(tier):
     th = tier == 'thorough'
     return [dict(kind='hyp', name='programs',
                  strategy=_case(7, 7) if th else _case(5, 4),
-                 examples=100000 if th else 6000)]
+                 examples=300000 if th else 20000)]
 
 
 def _same(what, out, exp, key):
